@@ -576,6 +576,7 @@ type checked struct {
 	nFree    int
 	nStreams int
 	maxComp  int
+	byOff    map[int]scanObj
 }
 
 func classOf(err error) string {
@@ -719,6 +720,7 @@ func checkFile(b []byte, eol string, encrypted bool) *checked {
 	for _, o := range sc.objs {
 		byOff[o.off] = o
 	}
+	c.byOff = byOff
 	located := map[int]bool{}
 	for _, e := range sec.ents {
 		switch e.typ {
@@ -966,4 +968,150 @@ func freeListFindings(ents []xent) []string {
 		}
 	}
 	return out
+}
+
+// ---------------------------------------------------------------- page contents through the strict structures
+
+// object resolves object nr through the (non-repaired) cross-reference: value, raw stream data (streams).
+func (c *checked) object(nr int) (any, []byte, map[string]any, bool) {
+	e, ok := c.merged[nr]
+	if !ok {
+		return nil, nil, nil, false
+	}
+	switch e.typ {
+	case 1:
+		so, ok := c.byOff[e.a]
+		if !ok || so.nr != nr {
+			return nil, nil, nil, false
+		}
+		if so.isStream {
+			return so.dict, so.data, so.dict, true
+		}
+		ps := &parser{b: so.body}
+		v, err := ps.value()
+		return v, nil, nil, err == nil
+	case 2:
+		_, data, d, ok := c.object(e.a)
+		if !ok || d == nil {
+			return nil, nil, nil, false
+		}
+		if _, has := d["Filter"]; has {
+			var err error
+			if data, err = inflate(data); err != nil {
+				return nil, nil, nil, false
+			}
+		}
+		n, _ := d["N"].(int)
+		first, _ := d["First"].(int)
+		if first > len(data) || e.b >= n {
+			return nil, nil, nil, false
+		}
+		ps := &parser{b: data[:first]}
+		var offs []int
+		for i := 0; i < n; i++ {
+			ps.value()
+			v, _ := ps.value()
+			o, ok := v.(int)
+			if !ok {
+				return nil, nil, nil, false
+			}
+			offs = append(offs, o)
+		}
+		end := len(data)
+		if e.b+1 < n {
+			end = first + offs[e.b+1]
+		}
+		if first+offs[e.b] > end || end > len(data) {
+			return nil, nil, nil, false
+		}
+		po := &parser{b: data[first+offs[e.b] : end]}
+		v, err := po.value()
+		return v, nil, nil, err == nil
+	}
+	return nil, nil, nil, false
+}
+
+// pageContents walks /Root /Pages /Kids and returns the decoded content of every page, in order.
+func (c *checked) pageContents() ([]string, error) {
+	if c.sec == nil {
+		return nil, fmt.Errorf("no cross-reference")
+	}
+	deref := func(v any) (any, []byte, map[string]any, bool) {
+		if r, ok := v.(pref); ok {
+			return c.object(r.nr)
+		}
+		return v, nil, nil, true
+	}
+	root, _, _, ok := deref(c.sec.trailer["Root"])
+	rd, isDict := root.(map[string]any)
+	if !ok || !isDict {
+		return nil, fmt.Errorf("catalog does not resolve")
+	}
+	var out []string
+	var walk func(v any, depth int) error
+	walk = func(v any, depth int) error {
+		n, _, _, ok := deref(v)
+		d, isDict := n.(map[string]any)
+		if !ok || !isDict || depth > 20 {
+			return fmt.Errorf("page tree node %v does not resolve to a dictionary", v)
+		}
+		switch t, _ := d["Type"].(pname); t {
+		case "Pages":
+			kids, _, _, ok := deref(d["Kids"])
+			ka, isArr := kids.([]any)
+			if !ok || !isArr {
+				return fmt.Errorf("/Kids does not resolve")
+			}
+			for _, k := range ka {
+				if err := walk(k, depth+1); err != nil {
+					return err
+				}
+			}
+		case "Page":
+			var parts []any
+			if cr, isRef := d["Contents"].(pref); isRef {
+				v, data, sd, ok := c.object(cr.nr)
+				if ok && sd == nil {
+					if arr, isArr := v.([]any); isArr {
+						parts = arr
+					}
+				}
+				if ok && sd != nil {
+					_ = data
+					parts = []any{cr}
+				}
+				if !ok {
+					return fmt.Errorf("/Contents %d does not resolve", cr.nr)
+				}
+			} else if arr, isArr := d["Contents"].([]any); isArr {
+				parts = arr
+			}
+			var sb []byte
+			for _, p := range parts {
+				r, isRef := p.(pref)
+				if !isRef {
+					return fmt.Errorf("content array element is not a reference")
+				}
+				_, data, sd, ok := c.object(r.nr)
+				if !ok || sd == nil {
+					return fmt.Errorf("content stream %d does not resolve to a stream", r.nr)
+				}
+				if _, has := sd["Filter"]; has {
+					var err error
+					if data, err = inflate(data); err != nil {
+						return fmt.Errorf("content stream %d: %v", r.nr, err)
+					}
+				}
+				sb = append(sb, data...)
+			}
+			out = append(out, string(sb))
+		default:
+			return fmt.Errorf("page tree node of type %q", t)
+		}
+		return nil
+	}
+	if err := walk(rd["Pages"], 0); err != nil {
+		return nil, err
+	}
+	return out, nil
 }
